@@ -181,8 +181,17 @@ def barycentric_vectors(points, trilist):
     """
     # we permute the axes of the indexed point set to have shape
     # [3, n_dims, n_tris] for ease of indexing in.
-    x = np.transpose(points[trilist], axes=[1, 2, 0])
+    x = np.transpose(_as_floating(points)[trilist], axes=[1, 2, 0])
     return x[0], x[1] - x[0], x[2] - x[0]
+
+
+def _as_floating(points):
+    # the edge vectors are differences (and later products) of vertex
+    # positions: integer-typed coordinates (pixel positions stored as
+    # uint16/int16) would silently wrap around
+    if np.issubdtype(points.dtype, np.floating):
+        return points
+    return points.astype(np.float64)
 
 
 # Note we inherit from Alignment first to get it's n_dims behavior
@@ -250,7 +259,7 @@ class AbstractPWA(Alignment, Transform, Invertible):
         Rebuild the vectors that are used in the apply method. This needs to
         be called whenever the target is changed.
         """
-        t = self.target.points[self.trilist]
+        t = _as_floating(self.target.points)[self.trilist]
         # get vectors ij ik for the target
         self.tij, self.tik = t[:, 1] - t[:, 0], t[:, 2] - t[:, 0]
         # target i'th vertex positions
